@@ -213,7 +213,9 @@ theorem fromBelow_counter (s : Server) (ei : Nat) (m : Msg) (asg : List Nat) :
     simp only [Server.fromBelow]
     split
     · rfl
-    · split <;> rfl
+    · split
+      · rfl
+      · split <;> rfl
   | waiting n r =>
     simp only [Server.fromBelow]
     split <;> rfl
